@@ -15,13 +15,15 @@ Fixpoint affine (rows : list (Q * Q)) (xs : list Q) : list Q :=
   match rows, xs with (a, b) :: r, x :: t => (a * x + b) :: affine r t | _, _ => [] end.
 
 Record spec := { rows : list (Q * Q); s_tin : list unitQ; s_tout : list unitQ;
-                 kin : fkind; uin : list unitQ; kout : fkind; uout : list unitQ }.
+                 kin : fkind; uin : list unitQ; kout : fkind; uout : list unitQ;
+                 bq : bool   (* the backward transform carries units too; false: a user-supplied inverse on bare numbers in frame units *) }.
 
 Definition inv_rows (r : list (Q * Q)) : list (Q * Q) := map (fun ab => (1 / fst ab, - snd ab / fst ab)) r.
 
 Definition wcs_of (s : spec) : wcs Q :=
+  let b := Build_transform Q true (s_tout s) (s_tin s) (affine (inv_rows (rows s))) in
   Build_wcs Q (Build_transform Q true (s_tin s) (s_tout s) (affine (rows s)))
-              (Build_transform Q true (s_tout s) (s_tin s) (affine (inv_rows (rows s))))
+              (if bq s then b else free_transform Q Qmult Qdiv b (uout s) (uin s))
               (Build_frame Q (kin s) (uin s)) (Build_frame Q (kout s) (uout s)).
 
 Inductive op :=
@@ -87,7 +89,7 @@ Definition same_outcome (a b : outcome) : bool :=
 Example imaging_well_formed :
   let pix := mku 0 0 1 in let arcsec := mku 2 1 (1 # 3600) in
   let s := {| rows := [(2, 10); (3, -5)]; s_tin := [pix; pix]; s_tout := [arcsec; arcsec];
-              kin := Frame2D; uin := [pix; pix]; kout := Celestial 0; uout := [deg; deg] |} in
+              kin := Frame2D; uin := [pix; pix]; kout := Celestial 0; uout := [deg; deg]; bq := true |} in
   well_formed Q (wcs_of s) /\ frame_ok Q (fout Q (wcs_of s)) /\
   same_outcome (run false s (0, 0) (OpP2WV [1; 2])) (run true s (0, 0) (OpP2WV [1; 2])) = true.
 Proof.
